@@ -216,6 +216,12 @@ def oracle_iter(case, line, drained):
     if esc and well_formed(case):
         return f"{esc[0][8:]} raised into the feeder of the observation (callback()/error())", "iter-escaped"
     outs = [o for o in outs if not o.startswith("escaped:")]
+    # 0. CancelledError comes out of __anext__ only when the consumer was cancelled (an `X` of the case)
+    n_cancelled = sum(1 for o in outs + list(drained) if o == "cancelled")
+    n_x = sum(1 for op in case["ops"] if op == "X")
+    if n_cancelled > n_x:
+        return (f"CancelledError came out of __anext__ {n_cancelled} times although the consumer was cancelled "
+                f"{n_x} times: an earlier cancelled wait is no statement about the observation"), "iter-spurious-cancel"
     outs = [o for o in outs + list(drained) if o != "cancelled"]
     items = [int(o[1:]) for o in outs if o[0] == "i"]
     # 1. a subsequence of what was fed, in order, nothing twice
